@@ -155,6 +155,13 @@ pub fn run(args: &Args) -> ! {
         check_text(&text, st, "Σ2");
     });
     all.merge(st);
+    // (b') Σ₃^≤k: doc-lexer states
+    let k3 = args.tier.pick(3, 4);
+    let (st, done2b) = par_words(SIGMA3.len(), 1, k3, args.threads, &dl, |w, st| {
+        let text = word_text(SIGMA3, w);
+        check_text(&text, st, "Σ3");
+    });
+    all.merge(st);
     // (a') core alphabet one level deeper (thorough)
     let mut donecore = None;
     if kcore > 0 {
@@ -239,15 +246,16 @@ pub fn run(args: &Args) -> ! {
     let done4 = nest_done == nest_jobs;
 
     rep.rule = format!(
-        "every word of Σ1^≤{k1} (|Σ1|={}), Σ2^≤{k2} (|Σ2|={}){}, every delete/duplicate/insert({} fragments) mutation at every token of {} std-library paragraphs (≤{max_para_len} bytes), each under all {N_CFG} parser configurations; plus {nest_jobs} nesting-family × depth cases around the depth limit (4 configs); enumeration never repeats a (text,config) case; non-trivial = text longer than one byte; oracle: tree text == input and tokens tile [0,len)",
+        "every word of Σ1^≤{k1} (|Σ1|={}), Σ2^≤{k2} (|Σ2|={}), Σ3^≤{k3} (|Σ3|={}: one head per doc-lexer state + the bodies those states special-case){}, every delete/duplicate/insert({} fragments) mutation at every token of {} std-library paragraphs (≤{max_para_len} bytes), each under all {N_CFG} parser configurations; plus {nest_jobs} nesting-family × depth cases around the depth limit (4 configs); enumeration never repeats a (text,config) case; non-trivial = text longer than one byte; oracle: tree text == input and tokens tile [0,len)",
         SIGMA1.len(),
         SIGMA2.len(),
+        SIGMA3.len(),
         if kcore > 0 { format!(", Σ1core^{kcore} (|Σ1core|={})", SIGMA1_CORE.len()) } else { String::new() },
         inserts.len(),
         paras.len()
     );
-    rep.exhaustive = done4 && done1 == Some(k1) && done2 == Some(k2) && done3 && (kcore == 0 || donecore == Some(kcore));
-    rep.bounds = json!({"sigma1_k_target": k1, "sigma1_k_completed": done1, "sigma2_k_target": k2, "sigma2_k_completed": done2,
+    rep.exhaustive = done4 && done1 == Some(k1) && done2 == Some(k2) && done2b == Some(k3) && done3 && (kcore == 0 || donecore == Some(kcore));
+    rep.bounds = json!({"sigma1_k_target": k1, "sigma1_k_completed": done1, "sigma2_k_target": k2, "sigma2_k_completed": done2, "sigma3_k_target": k3, "sigma3_k_completed": done2b,
         "core_k": kcore, "core_completed": donecore, "std_mutations": jobs.len(), "std_mutations_completed": done3,
         "configs": N_CFG, "wall_cap_s": args.wall_cap_s, "wall_cap_hit": dl.was_hit()});
     rep.assumptions = vec![
